@@ -16,6 +16,10 @@ mod c11;
 mod c12;
 mod c13;
 mod c14;
+mod c15;
+mod c16;
+mod c17;
+mod sched;
 mod c18;
 mod subj;
 mod sweep_parse;
@@ -40,7 +44,7 @@ pub struct PropDef {
 }
 
 fn registry() -> Vec<PropDef> {
-    vec![sweep_parse::c01(), sweep_parse::c02(), c03::def(), c04::def(), c05::def(), c06::def(), c07::def(), bfs::c08(), bfs::c09(), bfs::c10(), c11::def(), c12::def(), c13::def(), c14::def(), c18::def()]
+    vec![sweep_parse::c01(), sweep_parse::c02(), c03::def(), c04::def(), c05::def(), c06::def(), c07::def(), bfs::c08(), bfs::c09(), bfs::c10(), c11::def(), c12::def(), c13::def(), c14::def(), c18::def(), c16::def(), c17::def(), c15::def()]
 }
 
 fn find(id: &str) -> PropDef {
@@ -80,6 +84,7 @@ fn main() {
             let code = replay(&args[2]);
             std::process::exit(code);
         }
+        "c17-eval" => c17::eval_main(&args[2], args[3].parse().unwrap()),
         "list" => {
             for p in registry() {
                 println!("{}", p.id);
